@@ -109,7 +109,10 @@ class TextGen(object):
   def k_multiline_string(self):
     return self.r.choice(['"""a\n  b $A\nc""" + $B', "x = '''\n  $A\n'''\nx + $B", '"""\n""" * $A', 'len("""$A\n# no comment\n""")',
                           's = """x\n    indented\n"""\nreturn s + $B', '$B + """\\\ncontinued"""', 'x = """a\n"""; x + $B',
-                          '[\n  """m\n  n""",\n  $A,\n]', 'if $A:\n  t = """p\n q"""\n  return t\nreturn ""', "'''$A''' '''\n$B'''"])
+                          '[\n  """m\n  n""",\n  $A,\n]', 'if $A:\n  t = """p\n q"""\n  return t\nreturn ""', "'''$A''' '''\n$B'''",
+                          # multi-line literals of the other string kinds: bytes, raw, raw bytes
+                          "len(b'''ab\ncd''') + $A", 'b"""x\n  y""".decode() + $B', "len(rb'''\n$A\n''') * $A",
+                          'r"""a\n\\b\n""" + $B', 'x = b"""\n"""\nlen(x) + $A'])
 
   def k_statements(self):
     i, s = self.i, self.s
